@@ -1393,3 +1393,246 @@ func g26DirectoryKnown(r *Repo, rep *Report) {
 		rep.pass("G26")
 	}
 }
+
+// g4PrintWrites — every successful return of (*pkg).Print has (re)written derived.gen.go, or has established that the file on
+// disk already holds exactly the new content. The only accepted evidence for the latter is bytes.Equal between the *whole* file
+// (os.ReadFile / ioutil.ReadFile / io.ReadAll) and the rendered content, directly in the guarding condition or in a helper it
+// calls; a comparison after a bounded read (io.ReadFull into a buffer of the new length, Read) accepts a longer file that merely
+// starts with the new content — the stale tail of the previous output survives.
+func g4PrintWrites(r *Repo, rep *Report) {
+	fi := r.lookup("derive.(*pkg).Print")
+	if fi == nil {
+		rep.fail(Finding{Rule: "G4", Key: "G4|print-writes|missing", Kind: "undecided", Msg: "(*pkg).Print not found"})
+		return
+	}
+	info := fi.Pkg.TypesInfo
+	isOS := func(n ast.Node, pkg string, names ...string) bool {
+		c, ok := n.(*ast.CallExpr)
+		if !ok {
+			return false
+		}
+		fn, ok := callee(info, c).(*types.Func)
+		if !ok || fn.Pkg() == nil || fn.Pkg().Path() != pkg {
+			return false
+		}
+		for _, nm := range names {
+			if fn.Name() == nm {
+				return true
+			}
+		}
+		return false
+	}
+	// wholeFileEqual: the expression establishes equality with the whole file
+	var wholeFileEqual func(info *types.Info, body ast.Node, e ast.Expr, depth int) (bool, string)
+	wholeFileEqual = func(info *types.Info, body ast.Node, e ast.Expr, depth int) (bool, string) {
+		ok, why := false, "the condition that skips the write is not a comparison of the whole file with the new content"
+		ast.Inspect(e, func(n ast.Node) bool {
+			c, isCall := n.(*ast.CallExpr)
+			if !isCall {
+				return true
+			}
+			fn, _ := callee(info, c).(*types.Func)
+			if fn == nil {
+				return true
+			}
+			if fn.Pkg() != nil && fn.Pkg().Path() == "bytes" && fn.Name() == "Equal" {
+				// one operand must come from a whole-file read in this body
+				whole, partial := false, false
+				ast.Inspect(body, func(m ast.Node) bool {
+					if cc, isC := m.(*ast.CallExpr); isC {
+						if f2, _ := callee(info, cc).(*types.Func); f2 != nil && f2.Pkg() != nil {
+							switch {
+							case (f2.Pkg().Path() == "os" || f2.Pkg().Path() == "io/ioutil") && f2.Name() == "ReadFile", (f2.Pkg().Path() == "io" || f2.Pkg().Path() == "io/ioutil") && f2.Name() == "ReadAll":
+								whole = true
+							case f2.Pkg().Path() == "io" && (f2.Name() == "ReadFull" || f2.Name() == "ReadAtLeast"), f2.Name() == "Read" && f2.Type().(*types.Signature).Recv() != nil:
+								partial = true
+							}
+						}
+					}
+					return true
+				})
+				if whole && !partial {
+					ok = true
+				} else if partial {
+					why = "the file is compared after a bounded read: a longer file that starts with the new content counts as unchanged and keeps its stale tail"
+				}
+				return true
+			}
+			if d := r.Decls[fn]; d != nil && d.Decl.Body != nil && depth < 2 {
+				// a helper: every `return <expr>` of it that can be true must be a whole-file comparison
+				helperOK, any := true, false
+				ast.Inspect(d.Decl.Body, func(m ast.Node) bool {
+					ret, isRet := m.(*ast.ReturnStmt)
+					if !isRet || len(ret.Results) != 1 {
+						return true
+					}
+					if id, isID := ret.Results[0].(*ast.Ident); isID && id.Name == "false" {
+						return true
+					}
+					any = true
+					if o, w := wholeFileEqual(d.Pkg.TypesInfo, d.Decl.Body, ret.Results[0], depth+1); !o {
+						helperOK = false
+						why = w
+					}
+					return true
+				})
+				if any && helperOK {
+					ok = true
+				}
+			}
+			return true
+		})
+		return ok, why
+	}
+	g := newGraph(fi.Decl.Body, func(*ast.CallExpr) bool { return true })
+	type state struct {
+		b       *cfg.Block
+		written bool
+		same    bool
+	}
+	seen := map[state]bool{}
+	succ, bad := 0, false
+	lastWhy := ""
+	var dfs func(s state)
+	dfs = func(s state) {
+		if seen[s] {
+			return
+		}
+		seen[s] = true
+		written := s.written
+		for _, n := range s.b.Nodes {
+			if nodeHas(n, func(k ast.Node) bool {
+				return isOS(k, "os", "Create", "OpenFile", "WriteFile") || isOS(k, "io/ioutil", "WriteFile")
+			}) {
+				written = true
+			}
+			ret, ok := n.(*ast.ReturnStmt)
+			if !ok || len(ret.Results) == 0 {
+				continue
+			}
+			last := ast.Unparen(ret.Results[len(ret.Results)-1])
+			isNil := false
+			if id, ok := last.(*ast.Ident); ok && id.Name == "nil" {
+				isNil = true
+			}
+			if c, ok := last.(*ast.CallExpr); ok && strings.HasSuffix(exprStr(c.Fun), ".Close") {
+				isNil = true // the error of closing the written file
+			}
+			if !isNil {
+				continue
+			}
+			succ++
+			if !written && !s.same && !bad {
+				bad = true
+				why := lastWhy
+				if why == "" {
+					why = "no comparison with the file on disk guards the return"
+				}
+				rep.fail(Finding{Rule: "G4", Key: "G4|print-writes|success-without-write", Where: []string{r.pos(ret.Pos())},
+					Msg: "(*pkg).Print can report success without having written derived.gen.go (return at " + r.pos(ret.Pos()) + "): " + why + "; what the file holds afterwards depends on the previous output"})
+			}
+		}
+		if len(s.b.Succs) == 2 {
+			var cond ast.Expr
+			if ifs, ok := s.b.Succs[0].Stmt.(*ast.IfStmt); ok && s.b.Succs[0].Kind == cfg.KindIfThen {
+				cond = ifs.Cond
+			}
+			for i, sc := range s.b.Succs {
+				same := s.same
+				if cond != nil && i == 0 {
+					if ok, why := wholeFileEqual(info, fi.Decl.Body, cond, 0); ok {
+						same = true
+					} else {
+						lastWhy = why
+					}
+				}
+				dfs(state{sc, written, same})
+			}
+			return
+		}
+		for _, sc := range s.b.Succs {
+			dfs(state{sc, written, s.same})
+		}
+	}
+	if e := g.entry(); e != nil {
+		dfs(state{e, false, false})
+	}
+	rep.analysed("print_success_returns", succ)
+	if succ == 0 {
+		rep.fail(Finding{Rule: "G4", Key: "G4|print-writes|floor", Kind: "undecided", Where: []string{r.pos(fi.Decl.Pos())}, Msg: "(*pkg).Print has no successful return the rule recognises"})
+		return
+	}
+	if !bad {
+		rep.pass("G4")
+	}
+}
+
+// g23BreakOnlyWithoutProgress — the reload loop of generatePackage ends, besides by returning, exactly when a pass leaves the
+// same calls undefined as the pass before: a `break` whose enclosing condition is exactly the equality of this pass's undefined
+// calls with the recorded ones. A weaker condition (eq || other) ends the run with a stale record — the check after the loop
+// reads the record, so `cannot generate` is not reported and goderive exits 0; a stronger one (eq && other) does not end the
+// loop when nothing changes any more — with `generated` as the other conjunct, which is true whenever anything can be
+// generated, goderive rewrites and reloads for ever.
+func g23BreakOnlyWithoutProgress(r *Repo, rep *Report) {
+	fi := r.lookup("derive.(*program).generatePackage")
+	if fi == nil {
+		return
+	}
+	par := parents(fi.Decl)
+	n, good := 0, 0
+	isEq := func(e ast.Expr) bool {
+		be, ok := unparen(e).(*ast.BinaryExpr)
+		return ok && be.Op == token.EQL && strings.Contains(strings.ToLower(exprStr(be.X)), "undefined") && strings.Contains(strings.ToLower(exprStr(be.Y)), "undefined")
+	}
+	var loopPos token.Pos
+	ast.Inspect(fi.Decl.Body, func(m ast.Node) bool {
+		loop, ok := m.(*ast.ForStmt)
+		if !ok {
+			return true
+		}
+		loopPos = loop.Pos()
+		ast.Inspect(loop.Body, func(k ast.Node) bool {
+			switch x := k.(type) {
+			case *ast.ForStmt, *ast.RangeStmt, *ast.SwitchStmt, *ast.SelectStmt, *ast.FuncLit:
+				return false
+			case *ast.BranchStmt:
+				if x.Tok != token.BREAK {
+					return true
+				}
+				n++
+				var cond ast.Expr
+				for p := par[x]; p != nil && p != ast.Node(loop); p = par[p] {
+					if ifs, ok := p.(*ast.IfStmt); ok {
+						cond = ifs.Cond
+						break
+					}
+				}
+				switch {
+				case cond != nil && isEq(cond):
+					good++
+					rep.pass("G23")
+				case cond != nil && nodeHas(cond, func(q ast.Node) bool { e, ok := q.(ast.Expr); return ok && isEq(e) }):
+					be, _ := unparen(cond).(*ast.BinaryExpr)
+					if be != nil && be.Op == token.LAND {
+						rep.fail(Finding{Rule: "G23", Key: "G23|unresolved|break-needs-more-than-equality", Where: []string{r.pos(x.Pos())},
+							Msg: "generatePackage leaves the reload loop only when, besides the undefined calls being the same as in the pass before, " + exprStr(cond) + " holds: a package with one call that can be generated next to one that never becomes typeable is rewritten and reloaded for ever (goderive hangs, logging `could not yet generate`)"})
+					} else {
+						good++ // it does end the loop when nothing changes; what is wrong is that it also ends it otherwise
+						rep.fail(Finding{Rule: "G23", Key: "G23|unresolved|break-without-equality", Where: []string{r.pos(x.Pos())},
+							Msg: "generatePackage leaves the reload loop by a break whose condition (" + exprStr(cond) + ") can hold without this pass's undefined calls being equal to the recorded ones: the record read after the loop is then stale (empty in the first pass), `cannot generate` is not reported and goderive exits 0 with calls that were never generated"})
+					}
+				default:
+					rep.fail(Finding{Rule: "G23", Key: "G23|unresolved|break-without-equality", Where: []string{r.pos(x.Pos())},
+						Msg: "generatePackage leaves the reload loop by a break that is not guarded by the equality of this pass's undefined calls with the recorded ones: the record read after the loop is then stale (empty in the first pass), `cannot generate` is not reported and goderive exits 0 with calls that were never generated"})
+				}
+			}
+			return true
+		})
+		return false
+	})
+	rep.analysed("reload_loop_breaks", n)
+	if good == 0 && loopPos.IsValid() {
+		rep.fail(Finding{Rule: "G23", Key: "G23|unresolved|no-progress-exit", Where: []string{r.pos(loopPos)},
+			Msg: "the reload loop of generatePackage has no exit that is taken exactly when a pass leaves the same calls undefined as the pass before: a call that never becomes typeable keeps goderive rewriting and reloading for ever"})
+	}
+}
